@@ -103,6 +103,8 @@ def opInstance : Op := fun j => do
   pure (jObj [("demands_le_capacity", jBool (decide (demandsOK c.maxCap maxDemand s))),
               ("coordinates_in_box", jBool (decide (coordsInBox s))),
               ("initial_state", jBool (decide (IsInitial n c.maxCap s))),
+              ("generate_cert", jBool (decide (GenCert n c.maxCap maxDemand s))),
+              ("is_generate_of_its_draws", jBool (decide (s = generate n c.maxCap s.coords s.demands))),
               ("feasible", jBool (decide (Feasible c.maxCap s))),
               ("dist_matches_coordinates", jBool (distMatches (1 / 100000) s.coords D))])
 
